@@ -270,6 +270,9 @@ func coordinate(c *Check, tier string, suites []*Suite, evidence string, nw int,
 	t0 := time.Now()
 	if nw == 0 {
 		nw = runtime.NumCPU()
+		if j, err := strconv.Atoi(os.Getenv("VERIF_JOBS")); err == nil && j > 0 {
+			nw = j
+		}
 	}
 	if nw > len(suites) {
 		nw = len(suites)
